@@ -59,6 +59,7 @@ type script struct {
 	calls      []wcall
 	stacked    bool          // the wrapped writer is another ProgressWriter that has already counted bytes
 	stringable bool          // wrapped writer implements io.StringWriter
+	rich       bool          // ... and Flush / Buffered / Sync / Close / Available, all failing
 	greedy     bool          // consumer drains in a loop from the start
 	late       int           // consumer only starts before call #late (-1: per-call flags)
 	absent     bool          // consumer absent until Close: it asks for Status() only once the writer is inside Close()
@@ -94,7 +95,7 @@ func (s script) render() string {
 		}
 		parts = append(parts, p)
 	}
-	return fmt.Sprintf("stacked=%v stringWriter=%v greedy=%v late=%d absentUntilClose=%v asksSizeFirst=%v lateBy=%s: %s", s.stacked, s.stringable, s.greedy, s.late, s.absent, s.asksSize, s.lateBy, strings.Join(parts, "; "))
+	return fmt.Sprintf("stacked=%v stringWriter=%v(rich=%v) greedy=%v late=%d absentUntilClose=%v asksSizeFirst=%v lateBy=%s: %s", s.stacked, s.stringable, s.rich, s.greedy, s.late, s.absent, s.asksSize, s.lateBy, strings.Join(parts, "; "))
 }
 
 // wrapped writers ---------------------------------------------------------
@@ -149,6 +150,29 @@ func (w *stringWriter) WriteString(s string) (int, error) {
 	return k, err
 }
 
+// rich wrapped writers offer the optional methods of bufio.Writer, *os.File and friends - every one of them failing or
+// reporting something - for a wrapper that goes looking for them. What the wrapped writer reported through Write and
+// WriteString stays what Size() says.
+type richPlain struct{ plainWriter }
+
+func (w *richPlain) Flush() error   { return errBoom }
+func (w *richPlain) Buffered() int  { return 3 }
+func (w *richPlain) Available() int { return 0 }
+func (w *richPlain) Sync() error    { return errBoom }
+func (w *richPlain) Close() error   { return errBoom }
+func (w *richPlain) Size() int      { return 4096 }
+func (w *richPlain) Len() int       { return 1 }
+
+type richString struct{ stringWriter }
+
+func (w *richString) Flush() error   { return errBoom }
+func (w *richString) Buffered() int  { return 3 }
+func (w *richString) Available() int { return 0 }
+func (w *richString) Sync() error    { return errBoom }
+func (w *richString) Close() error   { return errBoom }
+func (w *richString) Size() int      { return 4096 }
+func (w *richString) Len() int       { return 1 }
+
 // the scenario, run on the root goroutine of a bubble ----------------------------
 
 type outcome struct {
@@ -166,10 +190,17 @@ func runScript(s script) (string, outcome) {
 	for i, c := range s.calls {
 		behs[i] = c.beh
 	}
-	if s.stringable {
+	switch {
+	case s.stringable && s.rich:
+		sw := &richString{stringWriter{plainWriter{behs: behs}}}
+		inner, pw0 = sw, &sw.plainWriter
+	case s.stringable:
 		sw := &stringWriter{plainWriter{behs: behs}}
 		inner, pw0 = sw, &sw.plainWriter
-	} else {
+	case s.rich:
+		rw := &richPlain{plainWriter{behs: behs}}
+		inner, pw0 = rw, &rw.plainWriter
+	default:
 		pw0 = &plainWriter{behs: behs}
 		inner = pw0
 	}
@@ -437,6 +468,7 @@ func keys(m map[int]bool) []int {
 
 func genScript(t *rapid.T) script {
 	s := script{stringable: rapid.Bool().Draw(t, "stringWriter"), late: -1, stacked: rapid.IntRange(0, 5).Draw(t, "stackedOnAnotherProgressWriter") == 0}
+	s.rich = rapid.IntRange(0, 2).Draw(t, "wrappedWriterOffersFlushSyncClose") == 0
 	switch rapid.IntRange(0, 5).Draw(t, "consumer") {
 	case 0:
 		s.greedy = true
